@@ -160,26 +160,26 @@ class SymAVM:
                 if not calls:
                     path.fail("D:retsub-empty:retsub with empty call stack")
                 fr = calls.pop()
+                delta = len(st) - fr.height
                 if fr.clear:
                     expect = fr.height + fr.returns
                     if len(st) < expect:
                         path.fail("D:frame:retsub with %d values above frame, proto declared %d" % (len(st) - fr.height, fr.returns))
                     argstart = fr.height - fr.args
                     rets = st[fr.height:expect]
-                    if self.record_exits:
-                        exits.append(("retsub", fr.label, list(st[argstart:]), fr.args, fr.returns))
                     del st[argstart:]
                     st.extend(rets)
-                else:
-                    if self.record_exits:
-                        exits.append(("retsub", fr.label, len(st) - fr.height, None, None))
+                if self.record_exits:
+                    # what the routine left: net height change since its entry, and the top of the caller's stack
+                    exits.append(("retsub", fr.label, [U(delta)] + (st[-1:] if st else [])))
                 self._fell_through = False
                 pc = fr.retpc
                 continue
             if op == "return":
                 v = self.pop_u()
                 if self.record_exits:
-                    exits.append(("return", len(calls), list(st)))
+                    base = calls[-1].height if calls else 0
+                    exits.append(("return", len(calls), [U(len(st) - base)]))
                 return self._ret(v, exits, const_loads)
             if op == "err":
                 path.fail("err")
